@@ -8,13 +8,14 @@
 (* evaluates the property on the transcription itself (ModelStale).          *)
 EXTENDS NamesEdit
 CONSTANT MaxLen
-WarmProbes == {3, 4, 9, 11, 12}          \* kpc, kiloparsec, kft, kfoo, Mfoo
+WarmProbes == {ProbeNo(s) : s \in {"kpc", "kiloparsec", "kft", "kfoo", "Mfoo", "Mpccm", "ka", "kmcm"}}
 \* names handed to define_unit, one per reading class: plain new name (quux, foo), existing table symbol (pc), listed
 \* alias (parsec), prefix + prefixable symbol (kpc: cold in a custom registry, warm in the default one or after Unit),
 \* prefix word + alias (kiloparsec), prefix + non-prefixable symbol (kft), prefix + user symbol (kfoo)
 DefineNames == {"quux", "pc", "parsec", "kpc", "kiloparsec", "kft", "kfoo"}
 CustomNext ==
            \/ \E k \in {"pc", "ft", "foo"}, pfx \in BOOLEAN : Add(k, "2", pfx) /\ hist' = Append(hist, [op |-> "add", k |-> k, m |-> "2", pfx |-> pfx, p |-> 0])
+           \/ \E k \in {"pccm", "a", "mcm"} : Add(k, "2", TRUE) /\ hist' = Append(hist, [op |-> "add", k |-> k, m |-> "2", pfx |-> TRUE, p |-> 0])
            \/ Add("kfoo", "7", FALSE) /\ hist' = Append(hist, [op |-> "add", k |-> "kfoo", m |-> "7", pfx |-> FALSE, p |-> 0])
            \/ \E k \in {"pc", "ft", "foo", "kfoo"} : Remove(k) /\ hist' = Append(hist, [op |-> "remove", k |-> k, m |-> "", pfx |-> FALSE, p |-> 0])
            \/ \E k \in {"pc", "ft", "foo"} : Modify(k, "4") /\ hist' = Append(hist, [op |-> "modify", k |-> k, m |-> "4", pfx |-> FALSE, p |-> 0])
@@ -29,5 +30,10 @@ Spec == EditInit /\ [][Next]_evars
 ModelStale == {p \in PIdx : PeekStr(p, lut, MemoRead)[1] \notin RefDens(user, p)}
 ModelStaleNs == LET r == NsOf(lut) IN IF r.ok /\ kind = "custom" THEN {p \in PIdx : r.ns[p].k = "unit" /\ r.ns[p] \notin RefDens(user, p)} ELSE {}
 Export == PrintT(ToJson([tag |-> "HIST", kind |-> kind, h |-> hist,
-                         stale |-> {[s |-> ProbeSeq[p].s, layer |-> Layer(user, p, ModelRows(lut))] : p \in ModelStale \cup ModelStaleNs}]))
+                         stale |-> {[s |-> ProbeSeq[p].s, layer |-> LayerModel(user, p, ModelRows(lut))] : p \in ModelStale \cup ModelStaleNs}]))
+\* beyond MaxLen: a state cover one step deeper - VIEW hides the history, TLC keeps one witness history per distinct
+\* registry state (kind, caller's view, table, memo, last result) and the witnesses of length Deep are exported
+CONSTANT Deep
+View == <<kind, user, lut, memo, last>>
+ExportDeep == Len(hist) = Deep => Export
 =============================================================================
